@@ -361,7 +361,7 @@ def gen_cases(chk):
             cases.append({'base': 'file:' + f, 'mut': 'replicate-objects', 'seed': rng.getrandbits(48)})
             cases.append({'base': 'file:' + f, 'mut': 'object-own-files', 'seed': rng.getrandbits(48)})
         if os.path.basename(f) in ('simplelist.odt', 'emb_spreadsheet.odp', 'cols.odp'):
-            for mname in ('fonts-differ', 'fonts-styles-only', 'inline-document'):
+            for mname in ('fonts-differ', 'fonts-styles-only', 'inline-document', 'embedded-fonts', 'empty-media-types'):
                 cases.append({'base': 'file:' + f, 'mut': mname, 'seed': rng.getrandbits(48)})
         if os.path.basename(f) in ('simplelist.odt', 'twolevellist.odt', 'headerfooter.odt', 'pythagoras.ods'):
             cases.append({'base': 'file:' + f, 'mut': 'same-name-kinds', 'seed': rng.getrandbits(48)})
